@@ -136,6 +136,13 @@ def gen_case(rnd, model=None, dynamics=None, **kw):
             'vacc': [], 'prerun': rnd.random() < 0.3, 'second': None}
     if model == 'SIvR':
         case['vacc'] = [n for n in case['graph']['nodes'] if rnd.random() < 0.5]
+    if model == 'SIR_VariableInfection' and rnd.random() < 0.4:
+        # the documented extension point: initialInfectivities() overridden (here: scripted per-edge values, other
+        # ones in an earlier run on the same object, which by C10 must not matter)
+        m = len(case['graph']['edges'])
+        vals = [0.0, 0.25, 0.5, 0.75, 1.0, 1.0]
+        case['vi_override'] = {'run': [rnd.choice(vals) for _ in range(m)], 'pre': [rnd.choice(vals) for _ in range(m)]}
+        case['prerun'] = True
     nameable = ('SIR', 'SIS', 'SIRS', 'SIR_FixedRecovery', 'SIS_FixedRecovery')
     if model in nameable and rnd.random() < 0.25:
         # two named instances of disease models on one network (the whole-run Coq tie covers single instances only)
@@ -314,6 +321,15 @@ def run_case(case):
     dyn.simulationEnded = ended
 
     import epydemic.stochasticdynamics as sd
+    vio = case.get('vi_override')
+    vi_cur = {'vals': None}
+    if vio:
+        def initial_infectivities():
+            net = proc.network()
+            for k, (_, _, data) in enumerate(net.edges(data=True)):
+                data[proc.INFECTIVITY] = vi_cur['vals'][k]
+        proc.initialInfectivities = initial_infectivities
+        vi_cur['vals'] = vio['pre']
     if case.get('prerun'):
         # an earlier run on the SAME experiment object (other parameters, other random choices): by C10 it must
         # not influence the observed run
@@ -331,6 +347,8 @@ def run_case(case):
         state['posted'] = 0
         state['started'] = False
     install(orc)
+    if vio:
+        vi_cur['vals'] = vio['run']
     gate_positions = []
     if model == 'SIvR':
         import epydemic.sivr_model as sivr_mod
